@@ -18,7 +18,7 @@ package bulkhead
 
 //@ func (*config).Build
 //@   requires c != nil
-//@   ensures [C06.capacity] result != nil && chancap(asref(result, *bulkhead).semaphore) == c.maxConcurrency && tokens(asref(result, *bulkhead).semaphore) == 0 && asref(result, *bulkhead).config == c
+//@   ensures [C06.capacity] result != nil && typeis(result, *bulkhead) && chancap(asref(result, *bulkhead).semaphore) == c.maxConcurrency && tokens(asref(result, *bulkhead).semaphore) == 0 && asref(result, *bulkhead).config == c
 //@   modifies nothing
 
 //@ func (*bulkhead).TryAcquirePermit
@@ -105,3 +105,11 @@ package bulkhead
 //@   requires c != nil
 //@   ensures [C16.bulkhead.listener_registered] c.onFull == listener && result == asiface(c)
 //@   modifies c.onFull
+
+// the convenience constructor is Builder(maxConcurrency).Build()
+//@ func With
+//@   dyntype BulkheadBuilder *config only
+//@   builder
+//@   let b := asref(result, *bulkhead)
+//@   ensures [C06.with] result != nil && typeis(result, *bulkhead) && chancap(b.semaphore) == maxConcurrency && tokens(b.semaphore) == 0 && b.config != nil && b.config.maxConcurrency == maxConcurrency && b.config.maxWaitTime == 0 && b.config.onFull == nil
+//@   modifies nothing
